@@ -773,8 +773,8 @@ Definition open_segments (s : st) : st * list mseg :=
     let '(s, l) := acc in
     let s1 := if f_hdr f then s else emit (EHeader (FSeg (f_id f) (f_seq f))) s in
     let size := match find_dseg (f_id f) (s_disk s1) with Some f' => flen f' | None => 0 end in
-    let meta := if size =? header_size then smeta0
-                else match f_meta f with GOk m => m | _ => smeta0 end in
+    (* the side file is read when the segment is not empty or the side file exists *)
+    let meta := match f_meta f with GOk m => m | _ => smeta0 end in
     (s1, insert_mseg {| g_id := f_id f; g_seq := f_seq f; g_size := size; g_meta := meta |} l))
   (sort_segs (d_segs (s_disk s))) (s, []).
 
